@@ -295,6 +295,8 @@ func runC09(c *Check, a *Analysis) {
 	ruleStreamCtxStable(c, a, "R-STREAM-CTX-STABLE")
 	ruleStreamSeqAssigned(c, a, "R-STREAM-SEQ")
 	ruleStreamQueue(c, a, "R-STREAM-QUEUE")
+	ruleStreamEvent(c, a, "R-STREAM-EVENT")
+	ruleStreamWrite(c, a, "R-STREAM-WRITE")
 	c.Rule("R-LOCK", "stream.events only under stream.mut", 3)
 	ruleLock(c, a, "R-LOCK", "stream", "events")
 	rulePushCtx(c, a, "R-PUSH-CTX")
@@ -410,6 +412,8 @@ func runC10(c *Check, a *Analysis) {
 	sc := siteCounter{}
 	ruleLockBalance(c, a, "R-LOCK-BALANCE", "stream.mut", "Conn.mutex", "Server.mutex")
 	ruleStreamCond(c, a, "R-STREAM-COND")
+	rulePollEOF(c, a, "R-POLL-EOF")
+	ruleSchedNil(c, a, "R-SCHED-NIL")
 	ruleStreamQueue(c, a, "R-STREAM-QUEUE")
 	c.Rule("R-LOCK", "stream.events only under stream.mut", 3)
 	ruleLock(c, a, "R-LOCK", "stream", "events")
